@@ -394,7 +394,8 @@ META = {
              "`sizeof` of objects and types as constants of type unsigned long; the expressions of assignments, initialisers, expression statements, `return`, "
              "the conditions of if/while/do/for, the controlling expression of switch and stored array values may READ ARRAY "
              "ELEMENTS and CALL FUNCTIONS anywhere inside (a[i] and f(args) with pure index/arguments, under casts, unary minus, "
-             "binary operators, &&, ||, ?: - except an array read in the first operand of ?:, which condexpr constant-folds); "
+             "binary operators, &&, ||, ?:, the COMMA operator `(a, b)` (a evaluated and discarded - it must be defined -, value of b) "
+             "- except an array read in the first operand of ?:, which condexpr constant-folds); "
              "all over F1's expressions on "
              "parameters and locals (lower2_correct, lower2_correct_in, lower2_correct_exact).  Statement: whenever the C semantics "
              "(Model/CSem.lean, Model/CSem2.lean over Spec/CInt.lean: big-step execution with fuel over a store in which "
